@@ -90,6 +90,8 @@ type result struct {
 	Internal      string         `json:"internal_error"`
 }
 
+var selfFailed []violation
+
 var (
 	snap  *verifrt.Snapshot
 	items []item
@@ -102,8 +104,8 @@ func variantsOf(b int) int {
 		return 3
 	case "html-template-lexer":
 		return 6
-	case "strconv-parse":
-		return 2
+	case "two-lexers":
+		return 12
 	}
 	return 2
 }
@@ -142,6 +144,11 @@ func setup() string {
 				return fmt.Sprintf("body %v is not deterministic when run alone from the same global state:\n %s\n %s", it, s1.obs, s2.obs)
 			}
 			solo[it] = s1
+			if i := strings.Index(s1.obs, "SELF-CHECK FAILED"); i >= 0 {
+				selfFailed = append(selfFailed, violation{Clause: "instances-interfere:" + c20bodies.All[b].Name,
+					Detail: fmt.Sprintf("%v alone in a fresh process: what one instance handed out changed when another instance of the same goroutine was used: %s", it, clip(s1.obs[i:])),
+					Case:   replayCase{Mode: "history", Items: []string{it.String()}}})
+			}
 		}
 	}
 	snap.Restore()
@@ -174,7 +181,7 @@ func histories(res *result, depth int, addViol func(violation)) {
 					f, _ := runBody(h)()
 					verifrt.Profile(f)
 				}
-				if len(s.hist) > 0 && stateKey() != s.key {
+				if stateKey() != s.key {
 					res.Internal = fmt.Sprintf("history %v does not reproduce its global state", s.hist)
 					return
 				}
@@ -197,14 +204,15 @@ func histories(res *result, depth int, addViol func(violation)) {
 						Case:   replayCase{Mode: "history", Items: names},
 					})
 				}
-				if len(snap.Dirty()) > 0 {
-					k := stateKey()
+				// the state includes what the sync shims hold (pool contents, Once flags), which the memory
+				// comparison deliberately leaves out: identify it by the deep hash
+				if k := stateKey(); k != s.key {
 					if !seen[k] {
 						seen[k] = true
 						res.States++
 						next = append(next, st{k, append(append([]item{}, s.hist...), it)})
 						if len(res.Notes) < 20 {
-							res.Notes = append(res.Notes, fmt.Sprintf("global state changes: after %v the variables %v differ from their initial content", append(append([]item{}, s.hist...), it), snap.Dirty()))
+							res.Notes = append(res.Notes, fmt.Sprintf("global state changes: after %v the variables %v differ from their initial content (an empty list means only state held by sync.Pool/Map/Once changed)", append(append([]item{}, s.hist...), it), snap.Dirty()))
 						}
 					}
 				}
@@ -540,6 +548,9 @@ func runShard(tier string, k, n int) *result {
 	}
 	obsSet := map[uint64]bool{}
 	if k == 0 {
+		for _, v := range selfFailed {
+			addViol(v)
+		}
 		depth := 2
 		if tier == "thorough" {
 			depth = 3
